@@ -43,7 +43,7 @@ def run(ctx):
         # a changed rule set is not mistaken for "unchanged": the snapshot the next load is compared with is updated on every path
         # that reports a change, and the enforced list is replaced on every such path (rules of C10, run here for this property)
         from . import rules_C10
-        bodies = {p: b for p, b in f.bodies.items() if p.startswith("core::%s::rule_manager::" % fam) and b.kind == "Fn"}
+        bodies = rules_C10.manager_bodies(f, fam)
         rules_C10.raw_snapshot(ctx, f, fam, bodies, cfg)
         rules_C10.enforced_updated(ctx, f, fam, bodies, cfg)
     fresh_read(ctx, f, cfg)
@@ -621,9 +621,9 @@ def _contradictory(lits):
 
 def old_list(ctx, f, fam, builder, emap, cfg):
     n = 0
-    for p, b in f.bodies.items():
-        if not p.startswith("core::%s::rule_manager::" % fam) or b.kind != "Fn":
-            continue
+    from . import rules_C10
+    seen_sites = set()
+    for p, b in rules_C10.manager_bodies(f, fam).items():
         sl = Slicer(f, b)
         for bb, t in b.calls():
             if callee_def(t).rsplit("::", 1)[-1] != builder:
@@ -643,13 +643,13 @@ def old_list(ctx, f, fam, builder, emap, cfg):
 def fresh_read(ctx, f, cfg):
     pairs = [("flow", "get_traffic_controller_list_for", "CONTROLLER_MAP"), ("hotspot", "get_traffic_controller_list_for", "CONTROLLER_MAP"), ("circuitbreaker", "get_breakers_of_resource", "BREAKER_MAP")]
     for fam, getter, emap in pairs:
-        g = f.bodies.get("core::%s::rule_manager::%s" % (fam, getter))
+        g = f.view(f.bodies.get("core::%s::rule_manager::%s" % (fam, getter)))
         if not ctx.floor("C11.fresh-read", "%s::%s" % (fam, getter), 1 if g else 0, 1):
             continue
         src = set()
         sl = Slicer(f, g)
         for bb, t in g.calls():
-            if callee_def(t).rsplit("::", 1)[-1] in ("push", "collect", "extend", "clone", "to_vec") and t["args"]:
+            if callee_def(t).rsplit("::", 1)[-1] in ("push", "collect", "extend", "clone", "cloned", "to_vec", "unwrap_or_default", "map") and t["args"]:
                 for a in t["args"]:
                     src |= {x[7:].rsplit("::", 1)[-1] for x in sl.of_operand(a) if x.startswith("static:")}
         at0 = {x[7:].rsplit("::", 1)[-1] for x in sl.of_local(0) if x.startswith("static:")}
